@@ -305,10 +305,12 @@ def expected_entries(case: dict[str, Any]) -> tuple[Counter, Counter]:
         tk = key_of(k["key"])
         tag, dg = rfc_ds(tk, k["alg"])
         ptag, pdg = rfc_ds(tk, k["alg"], prefixed=True)
+        # equal records collapse; "equal" is on the configured INSTANTS (microseconds included), the writer shows seconds
+        inst = (datetime.fromisoformat(k["valid_from"]), None if k["valid_until"] is None else datetime.fromisoformat(k["valid_until"]))
         vf, vu = fmt_dt(k["valid_from"]), fmt_dt(k["valid_until"])
-        want.add((k["label"], vf, vu, tag, k["alg"], dg))
-        want_prefixed.add((k["label"], vf, vu, ptag, k["alg"], pdg))
-    return Counter(want), Counter(want_prefixed)
+        want.add((inst, (k["label"], vf, vu, tag, k["alg"], dg)))
+        want_prefixed.add((inst, (k["label"], vf, vu, ptag, k["alg"], pdg)))
+    return Counter(e for _, e in want), Counter(e for _, e in want_prefixed)
 
 
 def parse_entries(root: ET.Element) -> list[tuple[Any, ...]]:
@@ -523,7 +525,7 @@ def run(tier: str, driver_ok: bool) -> Result:
     )
     r = lib.rng("C18")
     cases = special_cases(r)
-    n = 260 if tier == "quick" else 2500
+    n = 1000 if tier == "quick" else 6000
     for i in range(5):
         for _ in range(n // 5):
             cases.append(gen_case(r, i if r.random() < 0.5 else None))
